@@ -288,6 +288,7 @@ def worlds(draw, ninst=3, hostile_names=True, split_paths=False, foreign_ids=Fal
             root["if"] = REF()
             root[draw(st.sampled_from(["then", "else"]))] = REF()
     # ---- nested id changing the base on the way to a reference ---------------------------------
+    nested_instances = []
     ext_targets = [t for t in targets if t[0] != root_doc]
     if ext_targets and draw(st.integers(0, 2)) == 0 and (root_base.startswith("http") or draw(st.booleans())):
         if root_base.startswith("http") and draw(st.booleans()):
@@ -321,6 +322,8 @@ def worlds(draw, ninst=3, hostile_names=True, split_paths=False, foreign_ids=Fal
                     props[k] = holder
                     root["properties"] = props
                 classes.append("nested-id")
+                v1, v2 = draw(inst_scalar), draw(inst_scalar)
+                nested_instances = [{k: [v1, v2], "b": v2, "a": v1}, {k: {"z": v1}, "c": v2}, {k: v2}]
                 if not nid.startswith("http"):
                     classes.append("nested-id-relative")
     if d >= 6 and draw(st.booleans()):
@@ -361,6 +364,8 @@ def worlds(draw, ninst=3, hostile_names=True, split_paths=False, foreign_ids=Fal
     xs = draw(st.lists(instances(), min_size=ninst, max_size=ninst))
     if foreign_instances:
         xs = list(draw(st.permutations(foreign_instances))) + xs
+    if nested_instances:
+        xs = xs[:1] + nested_instances
     if "recursive-root" in classes:
         xs[-1] = {"k": draw(st.one_of(inst_scalar, st.dictionaries(inst_keys, inst_scalar, max_size=2)))}
     if split_paths:
